@@ -27,6 +27,7 @@ type fnSpecState struct {
 	headSt  map[*loopInfo]*State
 	invs    map[*loopInfo][]*boundClause
 	bodies  map[*loopInfo][]*boundClause
+	entries map[*loopInfo][]*boundClause
 	flagMap map[*eCall]int
 }
 
@@ -345,6 +346,7 @@ func (c *FnCtx) setupSpec(st0 *State) {
 		if ex := c.spec.loops[li.ordinal]; ex != nil && ex != ls {
 			ex.exits = append(ex.exits, ls.exits...)
 			ex.bodies = append(ex.bodies, ls.bodies...)
+			ex.entries = append(ex.entries, ls.entries...)
 			ex.invariants = append(ex.invariants, ls.invariants...)
 			if ls.decreases != nil {
 				ex.decreases = ls.decreases
@@ -370,6 +372,20 @@ func (c *FnCtx) setupSpec(st0 *State) {
 				bc.name = fmt.Sprintf("loop%d.inv%d", li.ordinal, i+1)
 			}
 			s.invs[li] = append(s.invs[li], bc)
+		}
+		for i, en := range ls.entries {
+			bc := c.bindClause(en, env, "entry")
+			if bc == nil {
+				continue
+			}
+			bc.name = en.label
+			if bc.name == "" {
+				bc.name = fmt.Sprintf("loop%d.entry%d", li.ordinal, i+1)
+			}
+			if s.entries == nil {
+				s.entries = map[*loopInfo][]*boundClause{}
+			}
+			s.entries[li] = append(s.entries[li], bc)
 		}
 		for i, bd := range ls.bodies {
 			c.bindIter = li
@@ -397,7 +413,8 @@ func (c *FnCtx) loopBodies(li *loopInfo, st *State, cond Term, from *ssa.BasicBl
 		return
 	}
 	c.curLoop = li
-	defer func() { c.curLoop = nil }()
+	c.backFrom = from
+	defer func() { c.curLoop = nil; c.backFrom = nil }()
 	for _, bc := range c.ss().bodies[li] {
 		env := c.clauseEnv(bc, st, nil)
 		t, err := c.evalBool(bc.body, env)
@@ -478,6 +495,18 @@ func (c *FnCtx) loopInvariants(li *loopInfo, st *State, cond Term, mode string) 
 			nm = "preserved"
 		}
 		c.emit(&Obligation{Uses: bc.cl.uses, Name: fmt.Sprintf("%s.%s.%s", c.spec.oname(), bc.name, nm), Kind: kind, Clause: bc.cl.src, Where: fmt.Sprintf("loop %d %s", li.ordinal, mode), Hyp: cond, Goal: t})
+	}
+	// `loop L entry` clauses: facts about the state in which the loop is entered
+	if mode == "entry" {
+		for _, bc := range s.entries[li] {
+			env := c.clauseEnv(bc, st, nil)
+			t, err := c.evalBool(bc.body, env)
+			if err != nil {
+				c.specErr(bc.cl, err)
+				continue
+			}
+			c.emit(&Obligation{Uses: bc.cl.uses, Name: fmt.Sprintf("%s.%s", c.spec.oname(), bc.name), Kind: "loop-entry", Clause: bc.cl.src, Where: fmt.Sprintf("entry of loop %d", li.ordinal), Hyp: cond, Goal: t})
+		}
 	}
 	// automatic candidates (Houdini): range-index bounds and event-flag progress
 	c.autoCandidates(li, st, cond, mode)
